@@ -268,8 +268,11 @@ def refusal_side_conditions(cfg, raise_node, is_own, text, context=()):
 
 NOCOPY_FUNCS = {"np.asarray", "numpy.asarray", "np.asanyarray", "numpy.asanyarray", "torch.as_tensor", "torch.from_numpy", "np.ravel", "numpy.ravel", "np.atleast_1d", "np.atleast_2d",
                 "np.squeeze", "np.transpose"}
-NOCOPY_METHODS = {"reshape", "ravel", "view", "squeeze", "transpose", "swapaxes", "numpy", "to_numpy", "detach", "unsqueeze", "expand", "view_as", "t", "flatten_view"}
-NOCOPY_ATTRS = {"values", "T", "data", "real"}
+NOCOPY_METHODS = {"reshape", "ravel", "view", "squeeze", "transpose", "swapaxes", "numpy", "to_numpy", "detach", "unsqueeze", "expand", "view_as", "t", "flatten_view",
+                  # conversions that return `self` when there is nothing to convert
+                  "to", "float", "double", "half", "long", "int", "bool", "type", "type_as", "contiguous", "cpu", "cuda", "astype_nocopy", "requires_grad_", "as_subclass", "flatten",
+                  "narrow", "select", "permute", "expand_as", "unbind", "real"}
+NOCOPY_ATTRS = {"values", "T", "data", "real", "value", "weight", "mT"}
 
 
 def inplace_on_argument_views(ctx, funcs=None):
